@@ -232,11 +232,11 @@ def runs : World → List Ev → World
 /-! ### requests -/
 
 /-- `Connection.async_request(handler, *args, timeout=τ)`: next sequence number, new result, send, and
-`if timeout is not None: res.set_expiry(timeout)` -/
+`if timeout is not None: res.set_expiry(timeout)`; the ghost logs are those of the new result -/
 def asyncRequest (w : World) (τ : Option Int) : World :=
   match τ with
-  | none => { w with seq := w.seq + 1, ar := AR.init, live := true }
-  | some t => setExpiry { w with seq := w.seq + 1, ar := AR.init, live := true } (some t)
+  | none => { w with seq := w.seq + 1, ar := AR.init, live := true, cbLog := [], readyAt := none }
+  | some t => setExpiry { w with seq := w.seq + 1, ar := AR.init, live := true, cbLog := [], readyAt := none } (some t)
 
 /-- `Connection.sync_request(handler, *args)` with `config["sync_request_timeout"] = τ`:
 `self.async_request(handler, *args, timeout=τ).value` -/
